@@ -519,7 +519,7 @@ package tchannel
 //@ func (r *reqResReader) releasePreviousFragment()
 //@   nosafety
 //@   requires r.previousFragment != nil ==> r.previousFragment.onDone != nil
-//@   modifies allbut fragmentingReader, cs, nrecv, doneCalls, doneCode, InboundCallResponse, errAttempts, *InboundCall, *Connection
+//@   modifies allbut fragmentingReader, cs, nrecv, doneCalls, doneCode, InboundCallResponse, errAttempts, sysErrID, sysErrCode, sysErrMsg, *InboundCall, *Connection
 //@   label nothing-to-release
 //@   ensures old(r.previousFragment) == nil || old(r.previousFragment.isDone) ==> TokensKept()
 //@   property C12
